@@ -3,6 +3,8 @@ package main
 import (
 	"fmt"
 	"go/types"
+	"os"
+	"runtime/debug"
 	"sort"
 	"strings"
 
@@ -83,6 +85,9 @@ func (e *Engine) verifyFunction(fn *ssa.Function, con *Contract) {
 			defer func() {
 				if r := recover(); r != nil {
 					e.toolError("generator crashed in %s: %v", key, r)
+					if os.Getenv("TQV_STACK") != "" {
+						fmt.Fprintf(os.Stderr, "%s\n", debug.Stack())
+					}
 				}
 			}()
 			e.verifyCase(fn, con, ci, sc)
